@@ -506,7 +506,20 @@ def run_case(idx, rng, P, rep):
                 kind, deps = old_kind.split('+')[0] + '+grown-in-place', old_deps | deps3
                 steps[-1] = 'reassign-same-reference'
                 rep.count('same_reference_reassigned')
-            setattr(t, tp, ref)
+            try:
+                setattr(t, tp, ref)
+            except ValueError as e:
+                if not (deps & raised_last):
+                    raise
+                # the reference evaluates (from the sources' current values) to something valid, yet the library resolved it to
+                # something else: it is built on an expression that was left stale when an earlier source assignment raised
+                # out of the setter on behalf of another link -- the known mechanism, met at a relink this time
+                viol('linked-value-stale/source-update-raised-for-another-link',
+                     f'{steps[-1]}: target{ti}.{tp} = <{kind}> raised {type(e).__name__}: {e}; from the current source values the reference '
+                     f'evaluates to {safe(ev)!r}, but it is built on an expression left stale when an earlier source assignment raised '
+                     f'ValueError on behalf of another linked parameter')
+                unspec[ti].add(tp)
+                continue
             refobjs[ti][tp] = ref
             links[ti][tp] = (ev, kind, deps)
             plain[ti].pop(tp, None)
@@ -553,16 +566,31 @@ def run_case(idx, rng, P, rep):
             trace.append(('update-context', ti, [(it['tp'], 'ref' if it['link'] else 'plain') for it in items], form))
             rep.count('update_contexts_' + form)
             kv = {it['tp']: it['val'] for it in items}
-            if form == 'kw':
-                cm = t.param.update(**kv)
-            elif form == 'mapping':
-                cm = t.param.update(dict(kv))
-            elif form == 'pairs':
-                cm = t.param.update(list(kv.items()))
-            else:
-                first = items[0]['tp']
-                cm = t.param.update({first: kv[first]}, **{k: v for k, v in kv.items() if k != first}) if len(items) > 1 \
-                    else t.param.update({}, **kv)
+            try:
+                if form == 'kw':
+                    cm = t.param.update(**kv)
+                elif form == 'mapping':
+                    cm = t.param.update(dict(kv))
+                elif form == 'pairs':
+                    cm = t.param.update(list(kv.items()))
+                else:
+                    first = items[0]['tp']
+                    cm = t.param.update({first: kv[first]}, **{k: v for k, v in kv.items() if k != first}) if len(items) > 1 \
+                        else t.param.update({}, **kv)
+            except ValueError as e:
+                stale = [it for it in items if it['link'] and (it['link'][2] & raised_last)]
+                if not stale:
+                    raise
+                # (as for a relink: a reference built on an expression left stale by an earlier, interrupted source assignment)
+                viol('linked-value-stale/source-update-raised-for-another-link',
+                     f'update-context: update({[it["tp"] for it in items]}) raised {type(e).__name__}: {e}; from the current source values '
+                     f'the reference for {stale[0]["tp"]} evaluates to {safe(stale[0]["link"][0])!r}, but it is built on an expression left '
+                     f'stale when an earlier source assignment raised ValueError on behalf of another linked parameter')
+                for it in items:
+                    unspec[ti].add(it['tp'])
+                    if it['link']:
+                        murky[ti] |= set(it['link'][2])     # (keys applied before the failing one are linked now)
+                continue
             ok_exit = True
             cm.__enter__()
             try:
